@@ -14,6 +14,10 @@ Payloads are distinguishable: a request is `(c, tag)`, the inner/backup service 
 call with serial `k` by `Resp k c tag` or `IErr kind k`, so "exactly what the strategy
 specifies for that request and that error" is visible in every result.
 
+The caller may drop the service, every clone of it and the layer at any time (`Op.dropsvc`, the
+harness's `manual dropsvc`): the response futures own what they need, so this only prevents
+further calls (flag `svcGone`, read by `arrive` alone; TR.Props.C17.dropsvc_only_stops_new_calls).
+
 The user-supplied functions of the configuration are fixed, injective-enough test functions
 (`strategyValue` … below); each of their invocations is an event (`callback`).
 -/
@@ -161,6 +165,10 @@ structure State where
   serial  : Nat := 0
   fnCalls : Nat := 0
   log     : List FEv := []
+  /-- every handle on the service (the `Fallback` it was built as, its clones, the layer) has been
+  dropped: no further call can be made. Read by `arrive` only — the response futures own their
+  configuration (`Arc::clone(&self.config)`, lib.rs:278), so nothing else may depend on it. -/
+  svcGone : Bool := false
 deriving Repr
 
 inductive Op
@@ -168,6 +176,7 @@ inductive Op
   | poll (c : Nat)
   | drop (c : Nat)
   | adv (ms : Nat)
+  | dropsvc                -- `manual dropsvc`: drop the service, all its clones and the layer
 deriving Repr
 
 def emit (s : State) (evs : List FEv) : State := { s with log := s.log ++ evs }
@@ -232,7 +241,8 @@ def pollFresh (cfg : Cfg) (s : State) (c : Nat) (rq : Request) (plan : List Step
 def stepS (cfg : Cfg) (s : State) (op : Op) : State :=
   match op with
   | .adv ms => { s with now := s.now + ms }
-  | .arrive c tag plan => if known s c then s else setPhase s c (.fresh ⟨c, tag⟩ plan)
+  | .arrive c tag plan => if s.svcGone || known s c then s else setPhase s c (.fresh ⟨c, tag⟩ plan)
+  | .dropsvc => { s with svcGone := true }
   | .poll c =>
       match lookup s.phase c with
       | some (.fresh rq plan) => pollFresh cfg s c rq plan
@@ -302,7 +312,17 @@ def parseOp (ws : List String) : Option Op :=
   | "poll" :: c :: _ => some (.poll (c.toNat?.getD 0))
   | "drop" :: c :: _ => some (.drop (c.toNat?.getD 0))
   | "adv" :: ms :: _ => some (.adv (ms.toNat?.getD 0))
+  | "manual" :: "dropsvc" :: _ => some .dropsvc
   | _ => none
+
+/-- operations the harness answers `noop` (line protocol only, not part of the log the theorems
+are about): there is no service left to make the call on, and a call that was never made can be
+neither polled nor dropped -/
+def refused (s : State) : Op → Bool
+  | .arrive _ _ _ => s.svcGone
+  | .poll c => !known s c
+  | .drop c => !known s c
+  | _ => false
 
 def machine : Machine where
   σ := Cfg × State
@@ -312,7 +332,9 @@ def machine : Machine where
     (cfg, init)
   step := fun (cfg, s) ws =>
     match parseOp ws with
-    | some op => let s' := stepS cfg s op; ((cfg, s'), (s'.log.drop s.log.length).map FEv.toEv)
+    | some op =>
+        let s' := stepS cfg s op
+        ((cfg, s'), (s'.log.drop s.log.length).map FEv.toEv ++ (if refused s op then [.raw "noop"] else []))
     | none => ((cfg, s), [])
   now := fun (_, s) => s.now
 
